@@ -168,11 +168,14 @@ open TonVerif.Generated.CellCtor TonVerif.Proofs.SrcCellCtor
 
 /-- ordinary cells (`cell_type = -1`): for ALL bit strings (any length) and ALL lists of child infos (any number, any level
 masks, any stored hashes and depths) the regenerated `Cell.__init__` raises exactly when the hand model does and otherwise
-returns the same level mask, `_hashes` and `_depths`; the completion-tag padding is the model's. -/
+returns the same level mask, `_hashes` and `_depths`, with `_hash` (`Cell.hash`) = the model's `CellInfo.hash`, `_descriptors` and
+`_data_bytes` = the model's descriptor bytes and padded data (`CtorOut.ofModel`); the completion-tag padding is the spec's. -/
 theorem c01_src_constructor (H : Bytes → Bytes) (bits : Bits) (refs : List CellInfo) :
-    init H bits refs (-1) = construct H (-1) bits refs ∧ get_data_bytes (self_bits := bits) = some (dataBytes bits) ∧
-    dataBytes bits = Spec.dataBytes bits :=
-  ⟨src_construct_eq_model H (-1) bits refs, get_data_bytes_eq bits, TonVerif.Proofs.CellSpec.dataBytes_eq bits⟩
+    init H bits refs (-1) = (construct H (-1) bits refs).map CtorOut.ofModel ∧
+    (init H bits refs (-1)).map CtorOut.toInfo = construct H (-1) bits refs ∧
+    get_data_bytes (self_bits := bits) = some (dataBytes bits) ∧ dataBytes bits = Spec.dataBytes bits :=
+  ⟨src_construct_eq_model H (-1) bits refs, src_construct_info H (-1) bits refs, get_data_bytes_eq bits,
+    TonVerif.Proofs.CellSpec.dataBytes_eq bits⟩
 
 /-- `c01_hash_depth` and `c01_constructible_iff` for the regenerated code: applying the REGENERATED constructor bottom-up to any
 tree of ordinary cells succeeds exactly when the depth is at most 1023, and then the level mask is 0 and hash / depth at every
